@@ -3,7 +3,24 @@
    Model: coq/model/SchemaSyn.v.  Text-level parsing / printing is correspondence-only (vp/props/c09.py). *)
 From Coq Require Import Permutation String.
 Open Scope string_scope.
-From Cedar Require Import SchemaSyn SchemaSynProofs.
+From Cedar Require Import SchemaSyn SchemaSynProofs SchemaJson SchemaJsonProofs.
+
+(* JSON-tree round trip: decoding the tree the encoder writes gives back the fragment, for every fragment whose
+   must-be-common references {"type": n} do not use one of the keywords of the format as n (wf_fragment; the
+   condition is necessary: c09_json_roundtrip_needs_wf).  Proved by induction on type expressions (nested records
+   and sets), then declaration by declaration.  Tree level: JSON text, `A::B` name syntax, key order and duplicate
+   keys are text level (correspondence only). *)
+Theorem c09_json_roundtrip :
+  forall f, wf_fragment f = true -> json_to_fragment (fragment_to_json f) = Some f.
+Proof. exact json_roundtrip. Qed.
+Print Assumptions c09_json_roundtrip.
+
+Example c09_json_roundtrip_needs_wf :
+  json_to_fragment (fragment_to_json [mkNs [] [(s2str "T", XCommon (kw "Long"))] [] []])
+  = Some [mkNs [] [(s2str "T", XPrim PLong)] [] []].
+Proof. exact json_roundtrip_needs_wf. Qed.
+Example c09_json_roundtrip_nonvacuous : wf_fragment collision_witness = true.
+Proof. vm_compute. reflexivity. Qed.
 
 (* PARTIAL (name level).  Writing a must-be-entity or must-be-common reference as a bare name (what fmt.rs
    does) and reading it back as entity-or-common (what the Cedar parser does) resolves to the same definition
@@ -66,6 +83,42 @@ Theorem c09_cedar_roundtrip_refuted :
     cedar_roundtrip f = Some f' /\ resolve f = SOk s /\ resolve f' = SOk s' /\ s <> s'.
 Proof. exact cedar_roundtrip_refuted. Qed.
 Print Assumptions c09_cedar_roundtrip_refuted.
+
+(* POSITIVE, at the level of one type expression (attribute / tag / common-type body / element), for ALL types:
+   a type written in the Cedar syntax (`cedar_form`: primitives and extension types as `__cedar::T`, every
+   reference as a bare entity-or-common name, no `additionalAttributes`) is qualified and converted to the SAME
+   validator type as the original, under the exact side conditions
+     - refs_free: no candidate name of a must-be-entity reference is a common type (this covers collisions in the
+       EMPTY namespace and with the implicit `Action` entity type, which fmt.rs's test misses) and no candidate of
+       a must-be-common reference is an entity type;
+     - exts_known: extension types are known;  ent_ok: after qualification no must-be-entity reference names a
+       common type and every record is closed;
+     - cd_rel: the common-type definitions of the translated fragment are those of the original, each body kept or
+       rewritten by cedar_form, the `__cedar` definitions present (one more unit of fuel pays for the `__cedar::T` jump).
+   PARTIAL with respect to `collision_free f -> resolve (cedar_roundtrip f) = resolve f`: not assembled over the
+   declarations of a fragment (hierarchies and RFC 70 checks do not involve types and are unchanged by
+   cedar_roundtrip; the common-type cycle check of the translated fragment is the missing step: it needs a
+   pigeonhole argument on reference chains), nor for the `context: Name` position. *)
+Theorem c09_cedar_roundtrip_types_partial :
+  forall cdefs edefs ns cd cd' fuel t q r,
+    builtins_defined cdefs -> cd_rel cd cd' ->
+    refs_free cdefs edefs ns t = true -> exts_known t = true ->
+    qual_ty cdefs edefs ns t = Some q -> ent_ok cd q = true -> conv fuel cd q = SOk r ->
+    exists q', qual_ty cdefs edefs ns (cedar_form t) = Some q' /\ conv (S fuel) cd' q' = SOk r.
+Proof. exact cedar_roundtrip_type. Qed.
+Print Assumptions c09_cedar_roundtrip_types_partial.
+
+(* REFUTED (second witness).  Even a collision test over all namespaces is not enough: the implicit entity type
+   NS::Action collides with a declared common type `Action` (finding C09:action-type-collision). *)
+Theorem c09_cedar_roundtrip_refuted_action :
+  exists f' s s',
+    cedar_roundtrip action_collision_witness = Some f' /\ resolve action_collision_witness = SOk s /\
+    resolve f' = SOk s' /\ s <> s'.
+Proof. exact cedar_roundtrip_refuted_action. Qed.
+Print Assumptions c09_cedar_roundtrip_refuted_action.
+
+Example c09_cd_rel_nonvacuous : cd_rel builtin_cd builtin_cd.
+Proof. exact cd_rel_builtin. Qed.
 
 (* non-vacuity: the hypotheses of the theorems above are satisfiable on concrete fragments *)
 Example c09_resolve_accepts_witness : exists s, resolve collision_witness = SOk s.
